@@ -32,6 +32,10 @@ checks = {
    text="Fault plans over instrumented callbacks. A generated table (about 900 entries: try/option/either/statet x Map2-9/LiftA2-9/FlatMap2-9/LiftM2-9/Flap1-9/Method1-9/FlatMethod1-9/Compose2-5/Zip/Zip3/Ap/ApFunc/Flatten/Map/FlatMap/Lift/LiftM/Replace/With/FlapMap/FlatFlapMap/Sequence*/Traverse* (8 variants)/FlatMapTraverse*/FoldM over 0-5 elements, and Chain1-9/Applicative1-9 builders of try and option with the argument variant of every position drawn from the seed) is executed under the no-fault plan, EVERY single-fault plan and seeded multi-fault plans: result must be the failure of the left-most faulted position with that position's own sentinel, callbacks before it ran exactly once in order and none after it. Recover*/Or*/OrElse* of Try/Option/Either/StateT are swept over receiver x handler behaviour (handlers run iff the receiver failed, successes unchanged, handler gets the receiver's own error). try.Of/Call/CallUnit and future.Apply/Apply2/Func0-3/Unit1 (the latter under the seeded task scheduler and every executor kind) are run with normal, error-returning and panicking bodies over six panic values: Failure must expose the panic value, a normal return is never turned into a failure, the future always completes. A fatal stack overflow is attributed to the case through the crash journal.",
    note="Single-fault plans are complete for every case a run visits; which cases are visited and all multi-fault plans are sampled from the seed (a quick run visits every table entry many times). Only the future.Apply family has a schedule; the rest are single-task fault-plan runs (stated in the evidence run classes). panic(nil) is excluded.",
    technique="fault injection through instrumented callbacks: complete single-fault enumeration + seeded multi-fault plans per combinator instance; seeded scheduler for future.Apply*"),
+ "C03": dict(cat="exploration", design="DESIGN.md §4 C03",
+   text="Seeded multi-version store: a pool of live fp.Map[int,int]/fp.Set[int] versions from every constructor (immutable.Map/Set, MapBuilder/SetBuilder, seq/iterator/list.ToMap/ToSet, zero values), each paired with a Go-map reference, under one adversarial but lawful hasher per run (identity, hash.Number, k mod 4, constant, k<<27, collide-on-subset, two-level); 1-3 simulated clients apply Updated/Removed/UpdatedWith/Concat/Incl/Excl/Diff/Intersect/SubsetOf in grow/shrink phases over up to 72 keys, every result joining the pool. After every event the new version's trie passes the structural walker (popcount=len(nodes), hash-array count, collision >=2 same-hash non-Eqv entries, leaves under their own hash path, size=reachable entries) and Get/Contains over the whole key universe, Size, IsEmpty, Iterator/Keys/Values/Foreach equal the reference; source versions and a stride of live versions are re-checked, all of them at the end. Reach probes: every node kind, array->branch, bitmap<->hash-array, collision created/reduced, depth>=3. Sampling of histories, not proof.",
+   note="Trusted: the Go-map reference in the harness; hashers are lawful by construction. There is no intra-operation nondeterminism in persistent structures, so client interleaving is at operation granularity (stated in the evidence). Keys are ints only.",
+   technique="deterministic simulation (history leg): seeded multi-client operation histories over a multi-version store, adversarial-hasher fault, reference model + structural invariants after every event"),
 }
 
 na = {
